@@ -255,7 +255,7 @@ def station_load(ctx: Ctx):
     # the handler passes this flush's reports
     h = repo.func(EH, "EventfulHandler.handle")
     rs = h.params[1]
-    ok = any(e.name == "construct_station_load_events" and flow.dump(e.call.args[0]) == f"tuple(filter(lambda r: r.report_type != ReportType.INSTRUCTION, {rs}))" for p in flow.paths(h.node) for e in p.events)
+    ok = any(e.name == "construct_station_load_events" and flow.cdump(e.call.args[0]) == flow.cdump(f"tuple(filter(lambda r: r.report_type != ReportType.INSTRUCTION, {rs}))") for p in flow.paths(h.node) for e in p.events)
     ctx.check(ok, "D2", "EV.station-load", "EventfulHandler derives station load from the reports of the current flush", h, why_bad="other source", construct="EventfulHandler.handle:load-source")
 
 
@@ -272,8 +272,8 @@ def stats(ctx: Ctx):
         n += 1
         got = {}
         for s in p.stores:
-            got[flow.dump(s.raw)] = flow.dump(s.value) if s.value is not None else None
-        ok = got.get("self.stats.requests") == f"{cnt}[ReportType.ADD_REQUEST_EVENT]" and got.get("self.stats.cancelled_requests") == f"{cnt}[ReportType.CANCEL_REQUEST_EVENT]"
+            got[flow.dump(s.raw)] = flow.cdump(s.value) if s.value is not None else None
+        ok = got.get("self.stats.requests") == flow.cdump(f"{cnt}[ReportType.ADD_REQUEST_EVENT]") and got.get("self.stats.cancelled_requests") == flow.cdump(f"{cnt}[ReportType.CANCEL_REQUEST_EVENT]")
         if not ok:
             all_ok = False
             why = f"path [{p.cond_text()[:160]}] ends with requests += {got.get('self.stats.requests')}, cancelled += {got.get('self.stats.cancelled_requests')}"
